@@ -29,6 +29,9 @@ open BV.Header
 /-- `gen_dict(seed, n)[i]` of `harness/src/dict.rs` -/
 def dictGen (seed i : Nat) : Nat := (i * 7 + (i / 8) * 13 + seed) % 251
 
+/-- `gen_in(seed, j)` of `harness/src/dict.rs` -/
+def inGen (seed j : Nat) : Nat := (j * 11 + (j / 32) * 3 + seed) % 253
+
 /-! ### encoder ring buffer -/
 
 /-- `RingBuffer` (`data_mo` as length + content function; unallocated = length 0) -/
